@@ -326,7 +326,8 @@ static std::string doParse(const std::vector<std::string>& a) {
             sink.fatal = false;
             sink.add(docl);
             if (!wasFatal && doc)
-                for (DOMNode* c = doc->getFirstChild(); c; c = c->getNextSibling()) dumpNode(c, r, sink);
+                for (DOMNode* c = doc->getFirstChild(); c; c = c->getNextSibling())
+                    if (c->getNodeType() != DOMNode::DOCUMENT_TYPE_NODE) dumpNode(c, r, sink);
             result = sink.join(0);
         } else result = "bad-request";
     } catch (const OutOfMemoryException&) { result = sink.join(0) + " | EXC OutOfMemory";
